@@ -224,6 +224,8 @@ structure Cfg where
   fixedConcat : Bool      -- which `np.concatenate` rule the tree uses
   bufferConcat : Bool     -- does the buffer type have `concatenate` (delimited formats) or not (FASTQ/FASTA/BAM)
   fixedSetattr : Bool
+  modWrite : Bool         -- `supports_modified_write` of the buffer type (False for BAM)
+  eagerWrite : Bool       -- the buffer type has `from_data`, i.e. eager tables can be written (False for BAM)
 
 def stepLazy (k : Cfg) (op : Op) (rs : List Lazy) : Obs × List Lazy :=
   match op with
@@ -266,7 +268,7 @@ def stepLazy (k : Cfg) (op : Op) (rs : List Lazy) : Obs × List Lazy :=
     | some l => let d := l.dataObject k.nF; (.rows (transposeN l.len d.1), rs.set a d.2)
     | none => (.err, rs)
   | .write a => match rs[a]? with
-    | some l => (.bytes (l.write k.join k.nF), rs)
+    | some l => if !k.modWrite && !l.set.isEmpty then (.err, rs) else (.bytes (l.write k.join k.nF), rs)
     | none => (.err, rs)
 
 def stepEager (k : Cfg) (op : Op) (rs : List Eager) : Obs × List Eager :=
@@ -302,7 +304,7 @@ def stepEager (k : Cfg) (op : Op) (rs : List Eager) : Obs × List Eager :=
     | some e => (.rows (transposeN e.len e.cols), rs)
     | none => (.err, rs)
   | .write a => match rs[a]? with
-    | some e => (.bytes (e.write k.join), rs)
+    | some e => if !k.eagerWrite then (.err, rs) else (.bytes (e.write k.join), rs)
     | none => (.err, rs)
 
 def runLazy (k : Cfg) : List Op → List Lazy → List Obs
